@@ -286,6 +286,13 @@ func buildPool(c Case) ([]*item, error) {
 		if g.Layout != 5 {
 			if b, err := geojson.Marshal(t2); err == nil {
 				it.json = b
+				// what files carry in front of a document: a byte-order mark, white space
+				switch i % 3 {
+				case 1:
+					it.json = append([]byte(" \n\t"), b...)
+				case 2:
+					it.json = append([]byte("\xef\xbb\xbf"), b...)
+				}
 			}
 		} else if ls, ok := t2.(*geom.LineString); ok {
 			var buf bytes.Buffer
